@@ -61,6 +61,7 @@ const (
 
 type convLetter struct {
 	c, mt, sid string
+	want       string // "" (drawn at random) | none | told50 | wrong50 | toldci | wrongci: the address the client says it wants / uses
 }
 
 func convAlphabet(reduced bool) []convLetter {
@@ -71,12 +72,12 @@ func convAlphabet(reduced bool) []convLetter {
 				if reduced && mt == "discover" && sid != "none" {
 					continue
 				}
-				a = append(a, convLetter{c, mt, sid})
+				a = append(a, convLetter{c, mt, sid, ""})
 			}
 		}
-		a = append(a, convLetter{c, "release", "none"})
+		a = append(a, convLetter{c, "release", "none", ""})
 		if !reduced {
-			a = append(a, convLetter{c, "decline", "none"}, convLetter{c, "inform", "none"})
+			a = append(a, convLetter{c, "decline", "none", ""}, convLetter{c, "inform", "none", ""})
 		}
 	}
 	return a
@@ -130,6 +131,7 @@ func runConvScenario(t *Trace, dir string, id int, cc convChain, letters []convL
 	t.Emit(Ev{"ev": "creset", "name": cc.name, "chain": cc.chain, "N": convN, "static": statics})
 	l4 := server.NewVerifListener4(h4, net.Interface{Index: boundIndex()})
 	lo := net.ParseIP(convRangeLo).To4()
+	toldIP := map[string]net.IP{}
 	for _, le := range letters {
 		req, _ := dhcpv4.New()
 		r.Read(req.TransactionID[:])
@@ -146,8 +148,29 @@ func runConvScenario(t *Trace, dir string, id int, cc convChain, letters []convL
 		if r.Intn(2) == 0 {
 			req.SetBroadcast()
 		}
+		// what a client may add: the address it wants (option 50) or already uses (ciaddr) - the one it was told, or another
+		want := le.want
+		if want == "" {
+			want = []string{"told50", "wrong50", "toldci", "wrongci", "none", "none"}[r.Intn(6)]
+		}
+		switch want {
+		case "told50":
+			if ip, ok := toldIP[le.c]; ok {
+				req.UpdateOption(dhcpv4.OptRequestedIPAddress(ip))
+			}
+		case "wrong50":
+			req.UpdateOption(dhcpv4.OptRequestedIPAddress(net.IPv4(10, 0, 0, 250)))
+		case "toldci":
+			if ip, ok := toldIP[le.c]; ok && le.mt != "discover" {
+				req.ClientIPAddr = ip.To4()
+			}
+		case "wrongci":
+			if le.mt != "discover" {
+				req.ClientIPAddr = net.IPv4(10, 0, 0, 251).To4()
+			}
+		}
 		fr := feed(l4, nil, 4, req.ToBytes(), 7, &net.UDPAddr{IP: net.IPv4(10, 0, 0, 9), Port: 68})
-		e := Ev{"ev": "cmsg", "c": le.c, "mt": le.mt, "sid": le.sid, "sent": false, "type": "none", "yi": 0, "lease": "none", "opts": []string{}, "sidok": false, "res": fr.res, "n": fr.n}
+		e := Ev{"ev": "cmsg", "c": le.c, "mt": le.mt, "sid": le.sid, "want": want, "sent": false, "type": "none", "yi": 0, "lease": "none", "opts": []string{}, "sidok": false, "res": fr.res, "n": fr.n}
 		if len(fr.sent4) == 1 && fr.sent4[0].Resp != nil {
 			back, err := dhcpv4.FromBytes(fr.sent4[0].Resp.ToBytes())
 			if err == nil {
@@ -157,10 +180,15 @@ func runConvScenario(t *Trace, dir string, id int, cc convChain, letters []convL
 					e["type"] = "offer"
 				case dhcpv4.MessageTypeAck:
 					e["type"] = "ack"
+				case dhcpv4.MessageTypeNak:
+					e["type"] = "nak"
 				default:
 					e["type"] = back.MessageType().String()
 				}
 				yi := back.YourIPAddr.To4()
+				if yi != nil && !yi.IsUnspecified() {
+					toldIP[le.c] = append(net.IP{}, yi...)
+				}
 				switch {
 				case yi == nil || yi.IsUnspecified():
 					e["yi"] = 0
@@ -245,7 +273,7 @@ func runConv(args []string) error {
 		if err != nil {
 			return err
 		}
-		var behaviours [][]struct{ C, Mt, Sid string }
+		var behaviours [][]struct{ C, Mt, Sid, Want string }
 		if err := json.Unmarshal(raw, &behaviours); err != nil {
 			return err
 		}
@@ -255,7 +283,7 @@ func runConv(args []string) error {
 			}
 			var letters []convLetter
 			for _, m := range b {
-				letters = append(letters, convLetter{m.C, m.Mt, m.Sid})
+				letters = append(letters, convLetter{m.C, m.Mt, m.Sid, m.Want})
 			}
 			if err := runConvScenario(t, *dir, x, cc, letters, rand.New(rand.NewSource(*seed*7+int64(x)))); err != nil {
 				return err
